@@ -181,7 +181,11 @@ func (ctx Ctx) coqFuncType(e *ast.FuncType) coq.Type {
 func (ctx Ctx) coqType(e ast.Expr) coq.Type {
 	switch e := e.(type) {
 	case *ast.Ident:
-		ctx.dep.addDep(e.Name)
+		if _, isTypeParam := ctx.typeOf(e).(*types.TypeParam); !isTypeParam {
+			// a type parameter may be spelled like a declaration of the
+			// package without depending on it
+			ctx.dep.addDep(e.Name)
+		}
 		// Struct typing is a bit funky.
 		if ctx.isGlobalVar(e) && !ctx.isStruct(e) {
 			return coq.TypeIdent(e.Name)
